@@ -135,8 +135,23 @@ func (e *Enc) call(fr *Frame, instr ssa.Instruction, c *ssa.CallCommon, _ types.
 	// effect-free callees: no argument evaluation at all
 	if e.eng.isEffectFree(cs.key) {
 		e.assumpEffectFree[cs.key] = true
-		e.siteCall(fr, cs, false)
-		return e.effectFreeResult(fr, cs)
+		matched := false
+		if e.fc != nil {
+			for i := range e.fc.Sites {
+				if e.siteMatchesCall(&e.fc.Sites[i], cs) {
+					matched = true
+				}
+			}
+		}
+		if matched {
+			e.evalArgs(fr, cs)
+		}
+		e.siteCall(fr, cs, matched)
+		r := e.effectFreeResult(fr, cs)
+		if fr.isTop && r != nil {
+			e.recordRet(cs, r)
+		}
+		return r
 	}
 	e.evalArgs(fr, cs)
 	e.siteCall(fr, cs, true)
